@@ -262,7 +262,12 @@ class TypeDeclarationStatement(Statement):
         if isinstance(self.parent, Function) and self.parent.name in self.entity_decls:
             assert self.parent.typedecl is None, repr(self.parent.typedecl)
             self.parent.typedecl = self
-            self.ignore = True
+            # The type of the function moves to the FUNCTION statement; any
+            # other entity declared by the same statement stays here.
+            self.entity_decls = [
+                entity for entity in self.entity_decls if entity != self.parent.name
+            ]
+            self.ignore = not self.entity_decls
         if isinstance(self, Type):
             self.name = self.selector[1].lower()
             assert is_name(self.name), repr(self.name)
